@@ -167,7 +167,27 @@ func (sr SetRecipe) build() []*url.PercentEncodeSet {
 	return chain
 }
 
+// namedFingerprints snapshots all named sets (per-case baseline: a set corrupted by an earlier case
+// must not make every later case fail, or the shrunk replay would blame an innocent case).
+func namedFingerprints() []string {
+	out := make([]string, len(NamedSets))
+	for i, ns := range NamedSets {
+		out[i] = setFingerprint(ns.Set)
+	}
+	return out
+}
+
+func namedSetsChangedSince(before []string) string {
+	for i, ns := range NamedSets {
+		if setFingerprint(ns.Set) != before[i] {
+			return ns.Name + " was modified"
+		}
+	}
+	return ""
+}
+
 func Check10Derive(sr SetRecipe, r *core.Rec) {
+	baseline := namedFingerprints()
 	chain := []*url.PercentEncodeSet{sr.start()}
 	prints := []string{setFingerprint(chain[0])}
 	for i, st := range sr.Steps {
@@ -187,7 +207,7 @@ func Check10Derive(sr SetRecipe, r *core.Rec) {
 				return
 			}
 		}
-		if msg := namedSetsUnchanged(); msg != "" {
+		if msg := namedSetsChangedSince(baseline); msg != "" {
 			r.Failf("derivation step %d (%+v): %s", i, st, msg)
 			return
 		}
@@ -291,6 +311,7 @@ func modelEncode(s string, member func(rune) bool) string {
 }
 
 func Check10Strings(c Case10s, r *core.Rec) {
+	baseline := namedFingerprints()
 	chain := c.Set.build()
 	set := chain[len(chain)-1]
 	s := string(c.S)
@@ -372,8 +393,8 @@ func Check10Strings(c Case10s, r *core.Rec) {
 		}
 		r.Class("law:decode-commutes")
 	}
-	if msg := namedSetsUnchanged(); msg != "" {
-		r.Failf("%s", msg)
+	if msg := namedSetsChangedSince(baseline); msg != "" {
+		r.Failf("encoding / decoding %s with a derived set: %s", quote(s), msg)
 	}
 }
 
@@ -424,4 +445,31 @@ var P10s = core.Register(core.Prop[Case10s]{
 		"non-trivial = the string contains a member, a non-member and a '%'; distinct by hash of (string, set recipe)",
 	Gen:   Gen10s,
 	Check: Check10Strings,
+})
+
+// Enum10 makes the exhaustive part replayable: the case carries nothing, the check enumerates.
+type Enum struct {
+	Note string `json:"note,omitempty"`
+}
+
+var P10t = core.Register(core.Prop[Enum]{
+	ID:   "C10.tables",
+	Rule: "exhaustive: all 0x110000 code points (surrogates skipped) and all 256 bytes x the six named sets of the statement against tables written from the standard's definitions",
+	Gen:  func(t *rapid.T) Enum { return Enum{} },
+	Check: func(_ Enum, r *core.Rec) {
+		if _, msg := Tables10(); msg != "" {
+			r.Failf("%s", msg)
+		}
+	},
+})
+
+var P10c = core.Register(core.Prop[Enum]{
+	ID:   "C10.components",
+	Rule: "exhaustive: every ASCII code point placed in every component (userinfo, path, opaque path, opaque host, query, fragment) of special and non-special URL templates, compared with the reference model's parse",
+	Gen:  func(t *rapid.T) Enum { return Enum{} },
+	Check: func(_ Enum, r *core.Rec) {
+		if _, msg := Components10(); msg != "" {
+			r.Failf("%s", msg)
+		}
+	},
 })
